@@ -36,13 +36,11 @@ func (c07) ID() string { return "C07" }
 
 // Known-finding names this check knows about (see FINDINGS.md).
 const (
-	kfLexerOrAnd   = "KF-lexer-or-and"             // lexer swallows the character after | || |= & && &= (owned by C06)
-	kfLexerTab     = "KF-lexer-tab"                // tab rejected (owned by C06)
-	kfParenTarget  = "KF-paren-assign-target"      // `(a) = 1` rejected
-	kfImplWithTC   = "KF-impl-with-trailing-comma" // `impl T with { a, } for $S {}` rejected
+	kfLexerOrAnd   = "KF-lexer-or-and"        // lexer swallows the character after | || |= & && &= (owned by C06)
+	kfLexerTab     = "KF-lexer-tab"           // tab rejected (owned by C06)
+	kfParenTarget  = "KF-paren-assign-target" // `(a) = 1` rejected
 	tagTight       = "tight-or-and"
 	tagParenTarget = "paren-assign-lhs"
-	tagImplWithTC  = "tc-impl-with"
 )
 
 func (c07) Info(tier string) fw.Info {
@@ -62,6 +60,7 @@ func (c07) Info(tier string) fw.Info {
 			"range `..`, blocks, if/match/try, statements and items are outside the operator table: only layout invariance is checked; ranges inside generated trees are always fully parenthesised",
 			"whitespace = space, LF, CRLF (tab only when the lexer is observed to accept it and KF-lexer-tab is not open); `..=`, `$name`, `@name` are treated as single tokens",
 			"while " + kfLexerOrAnd + " is open, or the real lexer is observed (at case-generation time) to mis-lex `a||b&c|=d`, the default renderings keep a whitespace character after | || |= & && &=; tight renderings then live only in the separately tagged workload '" + tagTight + "'",
+			"redundant parentheses around an assignment target (`(a) = 1`, finding " + kfParenTarget + ") are generated only by the tagged workload '" + tagParenTarget + "' so that this one defect cannot flood the others; the pair/triple enumerations are complete, everything else is seed-sampled (Exhaustive refers to the enumerations)",
 			"value check: literals only, results inside the region where the property fixes the arithmetic (no division by zero, shift counts 0..63, ** with exponent >= 0 and |result| < 2^53)",
 		},
 		Exhaustive:   true,
